@@ -136,6 +136,15 @@ func runYConc(c Case) string {
 	}
 	// sequential reuse
 	for i, j := range jobs {
+		if machs[i] != nil && strings.Contains(j.text, "deref") && !strings.HasPrefix(iso[i], "pair:") && !strings.Contains(iso[i], "error") && cstr(carr(c, "subs")[i].(map[string]any), "k") == "c02" {
+			// ... on ONE data tree that keeps its entries and hands out the paths it stores: a run leaves the tree as it found it
+			tree := &mockTree{hash: true, keeps: true}
+			for k := 0; k < 3; k++ {
+				tree.calls, tree.ncalls = nil, 0
+				res := xpath.NewCtxFromCurrent(gocontext.Background(), machs[i], &mockEntry{t: tree}).Run()
+				note(i, "rerun on a tree that keeps its entries", strings.Join(tree.calls, ";")+" => "+showResult(res))
+			}
+		}
 		if machs[i] != nil {
 			for k := 0; k < 3; k++ {
 				note(i, "sequential rerun", j.run(machs[i]))
